@@ -49,4 +49,5 @@ pub mod verif_exports {
     pub use crate::lsp_state::LspState;
     pub use crate::server::verif_dispatch_notification as dispatch_notification;
     pub use crate::server::verif_dispatch_request as dispatch_request;
+    pub use crate::server::verif_inject_lsp_message_receiver as inject_lsp_message_receiver;
 }
